@@ -38,14 +38,75 @@ def int_lit(tok: str) -> int:
     return int(t)
 
 
-def eval_const_expr(expr: str) -> int:
-    """evaluate a Rust constant expression made of integer literals, + - * and parentheses"""
-    e = expr.strip()
-    if not re.fullmatch(r"[0-9a-fA-Fx_ui\s\+\-\*\(\)]+", e):
+_TYPES = r"(?:u8|u16|u32|u64|u128|usize|i8|i16|i32|i64|i128|isize)"
+_MAXES = {"u8": 2**8 - 1, "u16": 2**16 - 1, "u32": 2**32 - 1, "u64": 2**64 - 1, "usize": 2**64 - 1}
+NAMED_CONSTS = {}  # name -> expression text, collected from every src/*.rs (see collect_named_consts)
+
+
+def eval_const_expr(expr: str, depth: int = 0) -> int:
+    """evaluate a Rust constant expression: integer literals (decimal / hex / binary / octal, digit-group
+    underscores, type suffixes), + - * / % << >> & | ^, parentheses, `as <int type>` casts (value-preserving
+    for the constants concerned; checked against the type's range), `<int type>::MAX`, and names of `const`
+    items of the crate (resolved recursively)."""
+    if depth > 8:
+        raise TranslateError(f"constant expression too deeply nested: {expr!r}")
+    e = " " + expr.strip() + " "
+    e = re.sub(r"\b(%s)::MAX\b" % _TYPES[3:-1], lambda m: str(_MAXES.get(m.group(1), 0)), e)
+    casts = re.findall(r"\bas\s+(%s)\b" % _TYPES[3:-1], e)
+    e = re.sub(r"\bas\s+%s\b" % _TYPES, " ", e)
+    e = re.sub(r"\b(?:crate|self|super)::(?:\w+::)*", "", e)
+
+    def lit(m):
+        return str(int_lit(m.group(0)))
+
+    e = re.sub(r"\b(?:0x[0-9a-fA-F_]+|0b[01_]+|0o[0-7_]+|[0-9][0-9_]*)%s?\b" % _TYPES, lit, e)
+
+    def name(m):
+        n = m.group(0)
+        if n not in NAMED_CONSTS:
+            raise TranslateError(f"unsupported constant expression: {expr!r} (unknown name {n})")
+        return "(" + str(eval_const_expr(NAMED_CONSTS[n], depth + 1)) + ")"
+
+    e = re.sub(r"\b[A-Za-z_]\w*\b", name, e)
+    if not re.fullmatch(r"[0-9\s\+\-\*/%<>&\|\^\(\)]+", e):
         raise TranslateError(f"unsupported constant expression: {expr!r}")
-    e = re.sub(r"(?<=[0-9a-fA-F])_(?=[0-9a-fA-F])", "", e)
-    e = re.sub(r"(u8|u16|u32|u64|usize)\b", "", e)
-    return int(eval(e, {"__builtins__": {}}, {}))
+    e = re.sub(r"(?<![<>/])/(?!/)", "//", e)
+    try:
+        v = int(eval(e, {"__builtins__": {}}, {}))
+    except Exception as ex:  # noqa: BLE001
+        raise TranslateError(f"cannot evaluate constant expression {expr!r}: {ex}")
+    for t in casts:
+        if t in _MAXES and not (0 <= v <= _MAXES[t]):
+            raise TranslateError(f"cast in constant expression {expr!r} is not value-preserving")
+    return v
+
+
+def collect_named_consts(repo):
+    NAMED_CONSTS.clear()
+    d = os.path.join(repo, "src")
+    for fn in sorted(os.listdir(d)):
+        if fn.endswith(".rs"):
+            src = strip_comments(open(os.path.join(d, fn)).read())
+            for m in re.finditer(r"\bconst\s+([A-Z][A-Z0-9_]*)\s*:\s*%s\s*=\s*([^;\[\]{}]+);" % _TYPES, src):
+                NAMED_CONSTS.setdefault(m.group(1), m.group(2))
+
+
+def split_top(body: str):
+    """split at top-level commas"""
+    out, depth, cur = [], 0, ""
+    for c in body:
+        if c in "([{":
+            depth += 1
+        elif c in ")]}":
+            depth -= 1
+        if c == "," and depth == 0:
+            out.append(cur)
+            cur = ""
+        else:
+            cur += c
+    if cur.strip():
+        out.append(cur)
+    return [x.strip() for x in out if x.strip()]
 
 
 def find_array(src: str, name: str, kind: str = "const|static|let"):
@@ -69,14 +130,13 @@ def find_array(src: str, name: str, kind: str = "const|static|let"):
 
 
 def flat_ints(body: str):
-    toks = [t for t in re.split(r"[\s,]+", body.strip()) if t]
-    return [int_lit(t) for t in toks]
+    return [eval_const_expr(t) for t in split_top(body)]
 
 
 def tuple_rows(body: str, arity: int):
     rows = []
     for m in re.finditer(r"\(([^()]*)\)", body):
-        vals = [int_lit(t) for t in re.split(r"[\s,]+", m.group(1).strip()) if t]
+        vals = [eval_const_expr(t) for t in split_top(m.group(1))]
         if len(vals) != arity:
             raise TranslateError(f"tuple arity {len(vals)} != {arity}")
         rows.append(tuple(vals))
@@ -87,7 +147,7 @@ def tuple_rows(body: str, arity: int):
 
 
 def find_const(src: str, name: str) -> int:
-    m = re.search(r"\b(?:pub(?:\([a-z]+\))?\s+)?const\s+%s\s*:\s*\w+\s*=\s*([^;]+);" % re.escape(name), src)
+    m = re.search(r"\b(?:pub(?:\([a-z]+\))?\s+)?(?:const|static)\s+%s\s*:\s*\w+\s*=\s*([^;]+);" % re.escape(name), src)
     if not m:
         raise TranslateError(f"const {name} not found")
     return eval_const_expr(m.group(1))
@@ -157,58 +217,149 @@ def gen_sys(repo):
     return out
 
 
+# Values at the pinned commit of the constants that are located by their syntactic context.  Used ONLY
+# when no pattern finds the constant in the current source (a restructured function): the constant is then
+# reported in <outdir>/NOTES.json as "not located" and its tie to /repo is the boundary correspondence
+# of the property alone (the checks print this and record it in the evidence).
+PINNED = {
+    "MAX_TRANSFER_LENGTH": 942574504275, "ESI_LIMIT": 16777216, "TUPLE_A_BASE": 53591, "TUPLE_A_MUL": 997,
+    "TUPLE_B_MUL": 10267, "TUPLE_Y_MOD": 4294967296, "TUPLE_V_RANGE": 1048576, "DEG_V_LIMIT": 1048576,
+    "DEFAULT_MEMORY": 10485760,
+}
+
+
+def fn_body(src: str, name: str) -> str:
+    """text of `fn name ... { ... }` (balanced braces); '' if absent"""
+    m = re.search(r"\bfn\s+%s\b[^{;]*\{" % re.escape(name), src)
+    if not m:
+        return ""
+    i = m.end() - 1
+    depth = 0
+    for j in range(i, len(src)):
+        if src[j] == "{":
+            depth += 1
+        elif src[j] == "}":
+            depth -= 1
+            if depth == 0:
+                return src[i : j + 1]
+    return ""
+
+
+def balanced_expr(text: str, pos: int) -> str:
+    """the expression starting at pos, up to the first terminator `) , ; { } && ||` at nesting depth 0"""
+    depth = 0
+    j = pos
+    while j < len(text):
+        c = text[j]
+        if c in "([":
+            depth += 1
+        elif c in ")]":
+            if depth == 0:
+                break
+            depth -= 1
+        elif depth == 0 and (c in ",;{}" or text[j : j + 2] in ("&&", "||")):
+            break
+        j += 1
+    return text[pos:j]
+
+
+def locate(notes, key, text, patterns):
+    """patterns are (prefix regex [, suffix regex], transform): the constant is the balanced expression that
+    follows the prefix (and is followed by the suffix, when given)"""
+    for pat in patterns:
+        rx, tr = pat[0], pat[-1]
+        suffix = pat[1] if len(pat) == 3 else None
+        for m in re.finditer(rx, text):
+            e = balanced_expr(text, m.end())
+            if suffix is not None and not re.match(suffix, text[m.end() + len(e):]):
+                continue
+            try:
+                return tr(eval_const_expr(e))
+            except TranslateError:
+                continue
+    notes.append(key)
+    return PINNED[key]
+
+
+def _tuple_b(notes, tup):
+    for m in re.finditer(r"let\s+B\s*(?::\s*\w+\s*)?=\s*([^;]+);", tup):
+        e = m.group(1)
+        m2 = re.fullmatch(r"\s*(.+?)\s*\*\s*\(\s*J\s*\+\s*1\s*\)\s*", e) or re.fullmatch(r"\s*\(\s*J\s*\+\s*1\s*\)\s*\*\s*(.+?)\s*", e)
+        if m2:
+            try:
+                return eval_const_expr(m2.group(1))
+            except TranslateError:
+                pass
+    notes.append("TUPLE_B_MUL")
+    return PINNED["TUPLE_B_MUL"]
+
+
 def gen_consts(repo):
     sysc = read(repo, "src/systematic_constants.rs")
     base = read(repo, "src/base.rs")
     enc = read(repo, "src/encoder.rs")
     out = HEADER
+    notes = []
     consts = {}
     consts["MAX_SOURCE_SYMBOLS_PER_BLOCK"] = find_const(sysc, "MAX_SOURCE_SYMBOLS_PER_BLOCK")
     consts["SPARSE_MATRIX_THRESHOLD"] = find_const(enc, "SPARSE_MATRIX_THRESHOLD")
     consts["PLAN_CACHE_CAPACITY"] = find_const(enc, "SOURCE_BLOCK_ENCODING_PLAN_CACHE_CAPACITY")
-    # literals inside function bodies, located by their syntactic context
-    m = re.search(r"assert!\(\s*transfer_length\s*<=\s*([0-9_]+)\s*\)", base)
-    if not m:
-        raise TranslateError("transfer length limit assert not found in base.rs")
-    consts["MAX_TRANSFER_LENGTH"] = int_lit(m.group(1))
-    m = re.search(r"assert!\(\s*encoding_symbol_id\s*<\s*([0-9_]+)\s*\)", base)
-    if not m:
-        raise TranslateError("ESI limit assert not found in base.rs")
-    consts["ESI_LIMIT"] = int_lit(m.group(1))
-    m = re.search(r"let\s+mut\s+A\s*=\s*([0-9_]+)\s*\+\s*J\s*\*\s*([0-9_]+)\s*;", base)
-    if not m:
-        raise TranslateError("tuple A multiplier not found")
-    consts["TUPLE_A_BASE"] = int_lit(m.group(1))
-    consts["TUPLE_A_MUL"] = int_lit(m.group(2))
-    m = re.search(r"let\s+B\s*=\s*([0-9_]+)\s*\*\s*\(\s*J\s*\+\s*1\s*\)\s*;", base)
-    if not m:
-        raise TranslateError("tuple B multiplier not found")
-    consts["TUPLE_B_MUL"] = int_lit(m.group(1))
-    m = re.search(r"%\s*([0-9_]+)\s*\)\s*as\s+u32\s*;\s*let\s+v\s*=\s*rand\(\s*y\s*,\s*0u32\s*,\s*([0-9_]+)\s*\)", base)
-    if not m:
-        raise TranslateError("tuple y modulus / v range not found")
-    consts["TUPLE_Y_MOD"] = int_lit(m.group(1))
-    consts["TUPLE_V_RANGE"] = int_lit(m.group(2))
-    m = re.search(r"fn\s+deg\s*\([^)]*\)\s*->\s*u32\s*\{\s*assert!\(\s*v\s*<\s*([0-9_]+)\s*\)", base)
-    if not m:
-        raise TranslateError("deg assert not found")
-    consts["DEG_V_LIMIT"] = int_lit(m.group(1))
-    m = re.search(r"generate_encoding_parameters\(\s*transfer_length\s*,\s*max_packet_size\s*,\s*([^,)]+),?\s*\)", base)
-    if not m:
-        raise TranslateError("default memory budget not found")
-    consts["DEFAULT_MEMORY"] = eval_const_expr(m.group(1))
-    f = flat_ints(find_array(base, "f", kind="let"))
+    ident = lambda v: v  # noqa: E731
+    # literals inside function bodies, located by their syntactic context (several spellings each)
+    consts["MAX_TRANSFER_LENGTH"] = locate(notes, "MAX_TRANSFER_LENGTH", base, [
+        (r"transfer_length\s*<=\s*", ident), (r"transfer_length\s*<\s*(?!=)", lambda v: v - 1),
+        (r"transfer_length\s*>\s*(?!=)", ident), (r"transfer_length\s*>=\s*", lambda v: v - 1)])
+    consts["ESI_LIMIT"] = locate(notes, "ESI_LIMIT", base, [
+        (r"encoding_symbol_id\s*<\s*(?![=<])", ident), (r"encoding_symbol_id\s*<=\s*", lambda v: v + 1),
+        (r"encoding_symbol_id\s*>=\s*", ident), (r"encoding_symbol_id\s*>\s*(?![=>])", lambda v: v + 1)])
+    tup = fn_body(base, "intermediate_tuple") or base
+    ok_a = False
+    for m in re.finditer(r"let\s+mut\s+A\s*(?::\s*\w+\s*)?=\s*([^;]+);", tup):
+        e = m.group(1)
+        m2 = re.fullmatch(r"\s*(.+?)\s*\+\s*J\s*\*\s*(.+?)\s*", e) or re.fullmatch(r"\s*(.+?)\s*\+\s*(.+?)\s*\*\s*J\s*", e)
+        m3 = re.fullmatch(r"\s*J\s*\*\s*(.+?)\s*\+\s*(.+?)\s*", e)
+        try:
+            if m2:
+                consts["TUPLE_A_BASE"], consts["TUPLE_A_MUL"] = eval_const_expr(m2.group(1)), eval_const_expr(m2.group(2))
+                ok_a = True
+            elif m3:
+                consts["TUPLE_A_BASE"], consts["TUPLE_A_MUL"] = eval_const_expr(m3.group(2)), eval_const_expr(m3.group(1))
+                ok_a = True
+        except TranslateError:
+            pass
+        if ok_a:
+            break
+    if not ok_a:
+        notes += ["TUPLE_A_BASE", "TUPLE_A_MUL"]
+        consts["TUPLE_A_BASE"], consts["TUPLE_A_MUL"] = PINNED["TUPLE_A_BASE"], PINNED["TUPLE_A_MUL"]
+    consts["TUPLE_B_MUL"] = _tuple_b(notes, tup)
+    consts["TUPLE_Y_MOD"] = locate(notes, "TUPLE_Y_MOD", tup, [
+        (r"%\s*", r"\s*\)\s*as\s+u32", ident), (r"&\s*(?!&)", r"\s*\)\s*as\s+u32", lambda v: v + 1)])
+    consts["TUPLE_V_RANGE"] = locate(notes, "TUPLE_V_RANGE", tup, [
+        (r"let\s+v\s*(?::\s*\w+\s*)?=\s*rand\(\s*y\s*,\s*0(?:u32)?\s*,\s*", r"\s*,?\s*\)", ident)])
+    dg = fn_body(base, "deg") or base
+    consts["DEG_V_LIMIT"] = locate(notes, "DEG_V_LIMIT", dg, [
+        (r"\(\s*v\s*<\s*(?![=<])", ident), (r"\bif\s+v\s*>=\s*", ident)])
+    wd = fn_body(base, "with_defaults") or base
+    consts["DEFAULT_MEMORY"] = locate(notes, "DEFAULT_MEMORY", wd, [
+        (r"generate_encoding_parameters\(\s*transfer_length\s*,\s*max_packet_size\s*,\s*", r"\s*,?\s*\)", ident)])
+    try:
+        f = flat_ints(find_array(dg, "f", kind="let|const|static"))
+    except TranslateError:
+        f = flat_ints(find_array(base, "f", kind="let|const|static"))
     if len(f) != 31:
         raise TranslateError(f"deg table f has {len(f)} entries")
     for k, v in consts.items():
         out += f"Definition {k} : N := {v}.\n"
     out += f"\nDefinition DEG_F : list N :=\n  {nlist(f, 8)}.\n"
+    gen_consts.notes = notes
     return out
 
 
 def main():
     repo, outdir = sys.argv[1], sys.argv[2]
     os.makedirs(outdir, exist_ok=True)
+    collect_named_consts(repo)
     gens = {
         "OctetTables.v": gen_octet,
         "RandTables.v": gen_rand,
@@ -225,6 +376,11 @@ def main():
             continue
         ch = write_if_changed(os.path.join(outdir, fn), text)
         print(f"rs2v: {fn} {'updated' if ch else 'unchanged'}")
+    import json
+    notes = getattr(gen_consts, "notes", [])
+    write_if_changed(os.path.join(outdir, "NOTES.json"), json.dumps({"not_located": notes}) + "\n")
+    for n in notes:
+        print(f"rs2v: NOTE constant {n} not located in the current source; pinned value used (tie: correspondence only)")
     sys.exit(rc)
 
 
